@@ -8,6 +8,7 @@ PROPERTY_FILE = "Properties/C13.v"
 TIE = "Tie.C13"
 DRIVER = "c13_driver.py"
 SHARD = 40
+HAS_MODEL_OUT = False   # a per-case coqc for diagnostics would dominate the run time of a broken tree
 THEOREMS = [
     "C13_iface_roundtrip_identity",
     "C13_class_roundtrip_identity",
@@ -38,10 +39,13 @@ TRUSTED_BASE = ["the pickle module itself (GLOBAL lookup, REDUCE, NEWOBJ/BUILD) 
                 "its by-name behaviour is observed with pickletools on every payload"]
 ASSUMPTIONS = ["the generated modules stay importable under the same name in the unpickling process",
                "classes use the metaclass `type`; declarations name interfaces only (not Interface itself, not "
-               "other class specifications)",
-               "cross-process equality of an instance's interfaces is judged only for module-ordered histories "
-               "(classes declared before instances are): otherwise the stale-declaration behaviour reported under "
-               "C01 would be attributed to pickling"]
+               "other class specifications); specifications of super() objects are outside the statement",
+               "for histories that are not module-ordered (a class is re-declared after one of its instances "
+               "received a declaration) the instance's declaration may be stale (C01); since the C01 repair a stale "
+               "declaration leaves the shared cache, so unpickling rebuilds the current one: for those histories the "
+               "interface lists of instance declarations are predicted by the model but not judged by the oracle",
+               "ClassProvides (and Provides that are no longer shared) are rebuilt on unpickling: Python's == / hash "
+               "on them are identity based, so 'equal' is judged as 'same interfaces' as the task statement directs"]
 
 
 # --------------------------------------------------------------------------- generation
@@ -117,7 +121,7 @@ def _gen_case(rng, force=None):
 
 def generate(run, tier):
     rng = run.rng("gen")
-    n = 110 if tier == "quick" else 1500
+    n = 260 if tier == "quick" else 1500
     cases = []
     # fixed shapes: every declaration shape on a three-class chain / diamond, with declared instances
     base = {"ifaces": [[], [0], [], [1, 2]], "classes": [[], [0], [1], [1, 0]],
@@ -353,16 +357,19 @@ TECHNIQUE = ("Coq proof over a Gallina model of the __reduce__ methods, implemen
              "operations and the Provides factory with its weak cache; vm_compute correspondence with real "
              "pickle.dumps/loads in both implementations, same process and fresh process, protocols 0..5, plus a "
              "pickletools scan of every payload")
-LEVEL_TEXT = ("Machine-checked theorems (Properties/C13.v, closed under the global context) state, for every world "
-              "of importable interfaces and classes and every history of declaration operations with no bound, that "
-              "interfaces, classes and class specifications (inherited, only, first) unpickle to the identical "
-              "object, that live provides-declarations unpickle to the identical object and current ones to a "
-              "declaration with the same arguments, bases and interfaces in any process with the same class "
-              "declarations, that ClassProvides and declared instances keep their interfaces, and that the results "
-              "are equal and hash-equal.  The model's reduce values, identities and interface lists are compared "
-              "with both implementations on every run and the raw observations are judged by the statement itself.")
+LEVEL_TEXT = ("Machine-checked theorems (Properties/C13.v, 16 theorems, closed under the global context) state, for every "
+              "world of importable interfaces and classes and every history of declaration operations with no bound: "
+              "interfaces, classes and class specifications (inherited, only, first; the reduction always names the "
+              "spec's own class) unpickle to the identical object; every provides-declaration still in the shared "
+              "cache is current (in every reachable state) and unpickles to the identical object in its own process "
+              "and to one with the same arguments, bases and interfaces in any process whose classes are declared "
+              "alike; after module-ordered histories every instance's declaration is such; ClassProvides and declared "
+              "instances keep their interfaces; results are equal and hash-equal.  The model's reduce values, "
+              "identities and interface lists are compared with both implementations (same process and fresh "
+              "process, protocols 0..5) on every run and the raw observations are judged by the statement itself.")
 LEVEL_NOTE = ("Trusted: Coq kernel/vm_compute; the pickle module (GLOBAL/REDUCE/NEWOBJ) is not modelled, only its "
-              "arguments; the resolution order (flattened) is compared before/after but not modelled here. "
-              "ClassProvides objects are rebuilt, not shared: `==`/hash of a directly pickled class.__provides__ are "
-              "identity based and therefore False; per the task statement they are judged by their interfaces.")
-HAS_MODEL_OUT = False
+              "arguments, and its payloads are scanned with pickletools; the resolution order (flattened) is compared "
+              "before/after but not modelled here.  ClassProvides objects are rebuilt, not shared: `==`/hash of a "
+              "directly pickled class.__provides__ are identity based and therefore False; per the task statement "
+              "they are judged by their interfaces.  Stale instance declarations (interleaved histories) are "
+              "outside the oracle's list comparison (see assumptions).")
